@@ -165,7 +165,9 @@ func genBotReal(rng *Rng, workdir string, stress bool) (s *engSession) {
 			// the dice roll that makes the weights choose one of the offered days
 			k := rng.Intn(len(offered))
 			w := scale[k][1]
-			if w <= 0 || (k > 0 && scale[k-1][1] == w) {
+			// the dice roll the planner caches is at most 10^9 (dice <= 1): larger values cannot occur in a run
+			// (with a high fly probability and a short planning period the scale exceeds 10^9 and is not monotone)
+			if w <= 0 || w > 1000000000 || (k > 0 && scale[k-1][1] == w) {
 				continue
 			}
 			a := rng.Intn(len(aps))
@@ -269,7 +271,23 @@ func genBotReal(rng *Rng, workdir string, stress bool) (s *engSession) {
 								bj := br.Journeys[len(br.Journeys)-1]
 								if bj.Jt == 1 {
 									found = true
-									s.coq = append(s.coq, fmt.Sprintf("ECheckInbound %s %d %s", coqFlight(vf), int64(j.Length), coqFlight(flap.VerifFromFlight(bj.Flight))))
+									// the distance of the way back, from the airports table
+									din := -1.0
+									var la, lb *flap.LatLon
+									for k := range aps {
+										if aps[k].code == j.Flight.ToAirport {
+											la = &flap.LatLon{Lat: aps[k].lat, Lon: aps[k].lon}
+										}
+										if aps[k].code == j.Flight.FromAirport {
+											lb = &flap.LatLon{Lat: aps[k].lat, Lon: aps[k].lon}
+										}
+									}
+									if la != nil && lb != nil {
+										if dd, err := la.Distance(*lb); err == nil {
+											din = float64(dd)
+										}
+									}
+									s.coq = append(s.coq, fmt.Sprintf("ECheckInbound %s %d %s %d", coqFlight(vf), int64(j.Length), coqFlight(flap.VerifFromFlight(bj.Flight)), fbits(din)))
 								}
 							}
 						}
